@@ -193,7 +193,7 @@ package utils
 //@ func ConvertTimestampToMillis
 //@   props C16
 //@   mode int
-//@   requires ghost(0, "tsnum") == 0
+//@   ghostinit ghost(0, "tsnum") == 0
 //@   modifies ghost(0, "tsnum"), ghost(0, "tsraw")
 //@   site call IsTimeInNano #1:
 //@     ghostset ghost(0, "tsraw") = parsed_value
@@ -205,7 +205,8 @@ package utils
 //@ func ExtractTimeStamp
 //@   props C16
 //@   mode int
-//@   requires timestampKey != nil && ghost(0, "etsnum") == 0 && ghost(0, "tsnum") == 0
+//@   requires timestampKey != nil
+//@   ghostinit ghost(0, "etsnum") == 0 && ghost(0, "tsnum") == 0
 //@   site call IsTimeInNano #1:
 //@     ghostset ghost(0, "etsraw") = ts_millis
 //@     ghostset ghost(0, "etsnum") = 1
@@ -266,9 +267,17 @@ package utils
 // ---- checksummed chunk reader (C18): bytes of a checksummed chunk are handed
 // out only after their CRC matched the stored checksum.
 //@ ghostdecl cpath int
+// frame of the chunk loop: fills the caller's buffer only (ASSUMED; the
+// per-chunk CRC gate is verified on readChunkAt below)
+//@ func (*ChecksumFile).ReadAt
+//@   assumed
+//@   modifies allbytes
+//@ end
+
 //@ func (*ChecksumFile).readChunkAt
 //@   props C18
-//@   requires csf != nil && ghost(0, "cpath") == 0
+//@   requires csf != nil
+//@   ghostinit ghost(0, "cpath") == 0
 //@   site call readUint32At #3:
 //@     ghostset ghost(0, "cpath") = 1
 //@   ensures [crc-gate] implies(ghost(0, "cpath") == 1 && result0 > 0, result0 <= len(buf) && uf("crc32", uint32, buf[:result0]) == checksum)
@@ -286,6 +295,7 @@ package utils
 //@ func ResizeSlice
 //@   assumed
 //@   pure
+//@   ensures implies(newLength >= 0, len(result) == newLength)
 //@ end
 
 // ---- set helpers (C06 fillnull): ASSUMED functional contract of a generic
